@@ -17,72 +17,83 @@ Section Rel.
   Variable ix : indexer.
   Variables unicode utf16 : bool.
   Variable h : hay.
+  Variable okp : nat -> Prop.
   Notation IR := (ir_results ix unicode utf16 h).
-  Notation ref := (ref ix unicode utf16 h).
+  Notation ref := (ref ix unicode utf16 h okp).
+  Notation al := (al ix unicode utf16 h okp).
 
+  (* under the invariant and for a node that stays among the well-formed positions: refinement, and both kept *)
   Definition PRel (lb : bool) (n n' : node) : Prop :=
-    qok n = true -> ref (negb lb) n n' /\ qok n' = true /\ ng n' = ng n.
+    qok n = true -> al n -> ref (negb lb) n n' /\ qok n' = true /\ al n' /\ ng n' = ng n.
 
   Lemma PRel_refl lb n : PRel lb n n.
-  Proof. intro Hq. split; [apply ref_refl|split; [exact Hq|reflexivity]]. Qed.
+  Proof. intros Hq Ha. split; [apply ref_refl|split; [exact Hq|split; [exact Ha|reflexivity]]]. Qed.
 
   Lemma PRel_trans lb a b c : PRel lb a b -> PRel lb b c -> PRel lb a c.
   Proof.
-    intros H1 H2 Hq. destruct (H1 Hq) as (R1 & Q1 & N1). destruct (H2 Q1) as (R2 & Q2 & N2).
-    split; [eapply ref_trans; eauto|split; [exact Q2|congruence]].
+    intros H1 H2 Hq Ha. destruct (H1 Hq Ha) as (R1 & Q1 & A1 & N1). destruct (H2 Q1 A1) as (R2 & Q2 & A2 & N2).
+    split; [eapply ref_trans; eauto|split; [exact Q2|split; [exact A2|congruence]]].
   Qed.
 
   Lemma PRel_cat lb l l' : Forall2 (PRel lb) l l' -> PRel lb (NCat l) (NCat l').
   Proof.
-    intros HF Hq. cbn [qok] in Hq.
-    assert (H3 : Forall2 (ref (negb lb)) l l' /\ forallb qok l' = true /\ list_sum (map ng l') = list_sum (map ng l)).
+    intros HF Hq Ha. cbn [qok] in Hq. apply al_cat in Ha.
+    assert (H3 : Forall2 (ref (negb lb)) l l' /\ forallb qok l' = true /\ Forall al l' /\
+                 list_sum (map ng l') = list_sum (map ng l)).
     { induction HF as [|c c' l l' Hc Hl IH]; [repeat split; constructor|].
-      cbn [forallb] in Hq. apply andb_true_iff in Hq as [Hqc Hql].
-      destruct (Hc Hqc) as (R1 & Q1 & N1). destruct (IH Hql) as (R2 & Q2 & N2).
+      cbn [forallb] in Hq. apply andb_true_iff in Hq as [Hqc Hql]. inversion Ha as [|c0 l0 Hac Hal]; subst.
+      destruct (Hc Hqc Hac) as (R1 & Q1 & A1 & N1). destruct (IH Hql Hal) as (R2 & Q2 & A2 & N2).
       split; [constructor; assumption|]. split; [cbn [forallb]; rewrite Q1, Q2; reflexivity|].
-      cbn [map]. rewrite !list_sum_cons, N1, N2. reflexivity. }
-    destruct H3 as (R & Q & Ng). split; [apply ref_cat; exact R|]. split; [exact Q|exact Ng].
+      split; [constructor; assumption|]. cbn [map]. rewrite !list_sum_cons, N1, N2. reflexivity. }
+    destruct H3 as (R & Q & A & Ng). split; [apply ref_cat; [exact Ha|exact R]|].
+    split; [exact Q|]. split; [apply al_cat; exact A|exact Ng].
   Qed.
 
   Lemma PRel_alt lb a a' b b' : PRel lb a a' -> PRel lb b b' -> PRel lb (NAlt a b) (NAlt a' b').
   Proof.
-    intros Ha Hb Hq. cbn [qok] in Hq. apply andb_true_iff in Hq as [Hqa Hqb].
-    destruct (Ha Hqa) as (R1 & Q1 & N1). destruct (Hb Hqb) as (R2 & Q2 & N2).
-    split; [apply ref_alt; assumption|]. cbn [qok ng]. rewrite Q1, Q2, N1, N2. split; reflexivity.
+    intros Ha Hb Hq Hal. cbn [qok] in Hq. apply andb_true_iff in Hq as [Hqa Hqb]. destruct Hal as [Hal1 Hal2].
+    destruct (Ha Hqa Hal1) as (R1 & Q1 & A1 & N1). destruct (Hb Hqb Hal2) as (R2 & Q2 & A2 & N2).
+    split; [apply ref_alt; assumption|]. cbn [qok ng]. rewrite Q1, Q2, N1, N2.
+    split; [reflexivity|]. split; [split; assumption|reflexivity].
   Qed.
 
   Lemma PRel_cg lb id nm c c' : PRel lb c c' -> PRel lb (NCaptureGroup id c nm) (NCaptureGroup id c' nm).
   Proof.
-    intros Hc Hq. cbn [qok] in Hq. destruct (Hc Hq) as (R1 & Q1 & N1).
-    split; [apply ref_cg; assumption|]. cbn [qok ng]. rewrite N1. split; [exact Q1|reflexivity].
+    intros Hc Hq Ha. cbn [qok] in Hq. cbn [OptMono.al] in Ha. destruct (Hc Hq Ha) as (R1 & Q1 & A1 & N1).
+    split; [apply ref_cg; assumption|]. cbn [qok ng]. rewrite N1. split; [exact Q1|]. split; [exact A1|reflexivity].
   Qed.
 
   Lemma PRel_look lb ng0 bw sg eg c c' : PRel bw c c' ->
     PRel lb (NLookaround ng0 bw sg eg c) (NLookaround ng0 bw sg eg c').
   Proof.
-    intros Hc Hq. cbn [qok] in Hq. destruct (Hc Hq) as (R1 & Q1 & N1).
-    split; [apply ref_look; assumption|]. cbn [qok ng]. split; [exact Q1|exact N1].
+    intros Hc Hq Ha. cbn [qok] in Hq. cbn [OptMono.al] in Ha. destruct (Hc Hq Ha) as (R1 & Q1 & A1 & N1).
+    split; [apply ref_look; assumption|]. cbn [qok ng]. split; [exact Q1|]. split; [exact A1|exact N1].
   Qed.
 
   Lemma PRel_loop lb b b' mn mx g egs ege : PRel lb b b' ->
     PRel lb (NLoop b mn mx g egs ege) (NLoop b' mn mx g egs ege).
   Proof.
-    intros Hb Hq. cbn [qok] in Hq. apply andb_true_iff in Hq as [Hq1 Hq3]. apply andb_true_iff in Hq1 as [Hq1 Hq2].
-    destruct (Hb Hq1) as (R1 & Q1 & N1).
-    split; [apply ref_loop; assumption|]. cbn [qok ng]. rewrite Q1, Hq2, N1, Hq3. split; reflexivity.
+    intros Hb Hq Ha. cbn [qok] in Hq. apply andb_true_iff in Hq as [Hq1 Hq3]. apply andb_true_iff in Hq1 as [Hq1 Hq2].
+    cbn [OptMono.al] in Ha. destruct (Hb Hq1 Ha) as (R1 & Q1 & A1 & N1).
+    split; [apply ref_loop; assumption|]. cbn [qok ng]. rewrite Q1, Hq2, N1, Hq3.
+    split; [reflexivity|]. split; [exact A1|reflexivity].
   Qed.
 
   Lemma PRel_l1 lb b b' mn mx g : PRel lb b b' ->
     PRel lb (NLoop1CharBody b mn mx g) (NLoop1CharBody b' mn mx g).
   Proof.
-    intros Hb Hq. cbn [qok] in Hq. apply andb_true_iff in Hq as [Hq1 Hq3]. apply andb_true_iff in Hq1 as [Hq1 Hq2].
-    destruct (Hb Hq1) as (R1 & Q1 & N1).
+    intros Hb Hq Ha. cbn [qok] in Hq. apply andb_true_iff in Hq as [Hq1 Hq3]. apply andb_true_iff in Hq1 as [Hq1 Hq2].
+    cbn [OptMono.al] in Ha. destruct (Hb Hq1 Ha) as (R1 & Q1 & A1 & N1).
     split; [apply ref_l1; assumption|]. cbn [qok ng]. destruct R1 as [_ S1]. destruct (S1 Hq3) as [Hl' _].
-    rewrite Q1, Hq2, Hl'. split; reflexivity.
+    rewrite Q1, Hq2, Hl'. split; [reflexivity|]. split; [exact A1|reflexivity].
   Qed.
 
-  Lemma rres_fle fwd n n' K : (forall f, fle (IR f n fwd) (IR (f + K) n' fwd)) -> rres ix unicode utf16 h fwd n n'.
-  Proof. intro H. exists K. intros f _. apply fle_frel. apply H. Qed.
+  Lemma rres_fle fwd n n' K : (forall f, fle (IR f n fwd) (IR (f + K) n' fwd)) -> rres ix unicode utf16 h okp fwd n n'.
+  Proof. intro H. exists K. intros f _. apply fle_frelP. apply H. Qed.
+
+  Lemma rres_fleO fwd n n' K :
+    (forall f x r, okp (fst x) -> IR f n fwd x = Some r -> IR (f + K) n' fwd x = Some r) -> rres ix unicode utf16 h okp fwd n n'.
+  Proof. intro H. exists K. intros f _ x r Hx E. exists r. split; [apply H; assumption|apply dd_refl]. Qed.
 
   (* a pass whose single rewrites establish PRel establishes it by run_to_fixpoint *)
   Theorem pass_sound (func : bool -> node -> R action) :
@@ -90,6 +101,20 @@ Section Rel.
     forall fuel n n', run_to_fixpoint func fuel n = Ok n' -> PRel false n n'.
   Proof.
     intro Hloc. apply (fixpoint_sound func PRel PRel_refl PRel_trans PRel_cat PRel_alt PRel_cg PRel_look PRel_loop PRel_l1 Hloc).
+  Qed.
+
+  Lemma al_empty : al NEmpty.
+  Proof.
+    split.
+    - intros [|f] fwd [p G] r Hx E; [discriminate|]. cbn in E. inversion E; subst. constructor; [exact Hx|constructor].
+    - intros lb fwd s Es. discriminate Es.
+  Qed.
+
+  Lemma al_fails : al make_always_fails.
+  Proof.
+    split.
+    - intros [|f] fwd [p G] r Hx E; [discriminate|]. cbn in E. inversion E; subst. constructor.
+    - intros lb fwd s Es. cbn in Es. inversion Es; subst. intros q q' _ E. cbn in E. discriminate E.
   Qed.
 
   (* ---- unfolding equations (ir_results destructs its state argument first) ---- *)
